@@ -55,7 +55,8 @@ func genCfg(stack string) prog.GenConfig {
 }
 
 func genCase(t *rapid.T, env *ev.Env) Case {
-	stack := rapid.SampledFrom([]string{"P2", "P1", "P3", "P8", "N1", "N2", "P12", "P4"}).Draw(t, "stack")
+	stacksList := []string{"P2", "N1", "P1", "N2", "P3", "N1", "P8", "N2", "P12", "P4"}
+	stack := stacksList[(rapid.IntRange(0, 63).Draw(t, "stackHi")*64+rapid.IntRange(0, 63).Draw(t, "stackLo")*37)%len(stacksList)]
 	c := Case{Stack: stack, Ops: genCfg(stack).Gen(t)}
 	c.Disturb = make([]Disturb, len(c.Ops))
 	withDisturb := rapid.IntRange(0, 2).Draw(t, "disturbed") > 0
